@@ -964,6 +964,13 @@ class ServerSSM(SSM):
             self.response(abort)
             return
 
+        # a new transaction has to start with the first segment, a later
+        # segment belongs to a transaction that has been given up
+        if apdu.apduSeq != 0:
+            abort = self.abort(AbortReason.invalidApduInThisState)
+            self.response(abort)
+            return
+
         # save the request and set the segmentation context
         self.set_segmentation_context(apdu)
 
